@@ -418,9 +418,14 @@ async def error_case(ctx, transport: str, step: int, err: bytes, with_fields: bo
         peer = SetupPeer(rng, code, w.accessory.identity.pairing_id)
         peer.reply_hook = hook
 
+        http_status = [200, 470, 400, 405][idx % 4]
+
         def responder(conn, req):
             if req["target"] == "/pair-setup" and not conn.secure:
-                conn.send(conn.http(200, reftlv.encode(peer.handle(reftlv.decode(req["body"]))), "application/pairing+tlv8"))
+                reply = peer.handle(reftlv.decode(req["body"]))
+                # an error reply travels with an HTTP 4xx status on many accessories
+                code = http_status if any(t == 7 for t, _ in reply) else 200
+                conn.send(conn.http(code, reftlv.encode(reply), "application/pairing+tlv8"))
                 return True
             return False
 
